@@ -168,6 +168,7 @@ def run(ctx):
         pair_cache[e.id] = out
         return out
 
+    stop_rule(ctx, prog, allm)
     for e in sorted(entries, key=lambda b: b.id):
         ctx.functions_analysed.add(e.id)
         own = pairs_of(e)
@@ -195,6 +196,52 @@ def run(ctx):
             ex = sorted(ps.items())[0]
             ctx.report(r, key, "%s reaches %s, which can fail (%s) after a persistent write (%s): an error from it leaves the store changed (path: %s)" % (
                 e.id, bid, ex[0][1], ex[0][0], " -> ".join(mirq.short_fn(x) for x in prog.path_to(parent, bid)[-4:])), b.file, ex[1][1], {"entry": e.id, "write": ex[0][0], "fail": ex[0][1], "via": bid})
+
+
+def stop_rule(ctx, prog, allm):
+    """a mutating step written inside a closure leaves the `?` discipline of the enclosing function: whether the batch
+    stops at the first failure then depends on the iterator adaptor the closure is handed to"""
+    from synq import Syn, walk, unparse, strip
+    r = ctx.rule("C14.STOP", "a batch of mutations stops at the first failure: no step that may write persistent state runs inside a closure handed to an iterator adaptor, unless that adaptor short-circuits (try_for_each / try_fold / collect into a Result)")
+    syn = Syn(ctx.facts.syn())
+    n = 0
+    for bid, b in sorted(prog.bodies.items()):
+        if "{closure" not in bid or b.d.get("derived"):
+            continue
+        n += 1
+        for bi, t in b.calls():
+            tg = prog.call_targets(b, t)
+            hit = sorted(x for x in tg if x in allm)
+            if not hit:
+                continue
+            decl, res, info = mirq.callee_of(t)
+            if not (t.get("at") and any(a.startswith("&mut ") for a in t["at"])):
+                continue
+            parent = prog.parent_fn(bid)
+            line = t.get("line")
+            # find the closure in the syntax tree and the adaptor chain it is handed to
+            verdict = "unknown adaptor"
+            for f in syn.fns:
+                if f.file != b.file or not f.body:
+                    continue
+                for m in walk(f.body):
+                    if m.get("k") != "mcall":
+                        continue
+                    for a in m["args"]:
+                        a = strip(a)
+                        if a.get("k") == "closure" and a.get("l", 0) <= line <= a.get("el", a.get("l", 0)):
+                            if m["method"] in ("try_for_each", "try_fold"):
+                                verdict = "ok"
+                            else:
+                                verdict = m["method"]
+                                # is the chain consumed by collect::<Result<..>>?
+                                for outer in walk(f.body):
+                                    if outer.get("k") == "mcall" and outer["method"] == "collect" and "Result" in (outer.get("turbofish") or "") and any(x is m for x in walk(outer["recv"])):
+                                        verdict = "ok"
+            r.hit("%s->%s" % (bid, mirq.short_fn(decl or hit[0])), sample={"closure": bid, "calls": decl, "adaptor": verdict})
+            if verdict != "ok":
+                ctx.report(r, "%s|%s" % (parent or bid, mirq.short_fn(decl or hit[0])), "%s calls %s, which may write persistent state, from inside a closure handed to .%s(..): the `?` of the enclosing function does not stop the batch at the first failure, so steps after a failed one still run and the store is changed further by a call that returns an error" % (parent or bid, mirq.short_fn(decl or hit[0]), verdict), b.file, line)
+    ctx.floor(r, n, 150, "closure bodies examined")
 
 
 def holds_mut_ref(prog, ty):
